@@ -176,12 +176,13 @@ def check_batch(ctx, case):
                     s['kwrev'] = t['kwrev']
             rev['steps'].reverse()
             rev = PS.assign_sids(rev)
-            if typed_equal:
-                # history independence needs interpreters without history: two fresh children
+            if typed_equal or case.get('dirty_first'):
+                # history independence needs interpreters without history: two fresh children (optionally both with
+                # the same short history: an earlier operation whose key could not be built)
                 ca, cb = HS.Child(a, ia), HS.Child(b, ib)
                 try:
-                    rf = ca.call({'cmd': 'record', 'dir': work3, 'prog': fwd})
-                    r2 = cb.call({'cmd': 'record', 'dir': work2, 'prog': rev})
+                    rf = ca.call({'cmd': 'record', 'dir': work3, 'prog': fwd, 'dirty_first': case.get('dirty_first')})
+                    r2 = cb.call({'cmd': 'record', 'dir': work2, 'prog': rev, 'dirty_first': case.get('dirty_first')})
                 finally:
                     ca.close()
                     cb.close()
@@ -212,6 +213,8 @@ def check_batch(ctx, case):
     nt = a != b and any(nontrivial_tree(s['a']) or nontrivial_tree(s['b']) or
                         prog['ins'][s['i']].get('capture', 'all') not in ('all',) for s in prog['steps'])
     ctx.case(case, nt, classes=('seeds:%s' % ('same' if a == b else 'different'),
+                                'shared-instance' if any(x.get('share') for x in prog['steps']) else 'no-shared-instance',
+                                'history:key-failure-first' if case.get('dirty_first') else 'history:none',
                                 'imports:%s' % ('same' if ia == ib else 'different'), 'typed-equal:%d' % min(len(typed_equal), 3), 'batch:%d' % min(len(steps), 10)) +
              (('big-argument',) if any(x.get('big') for x in prog['steps']) else ()) +
              tuple(set('capture:' + prog['ins'][s['i']].get('capture', 'all') for s in prog['steps'])) +
@@ -275,11 +278,25 @@ def batches(draw):
         if ins[s['i']]['kind'] == 'property':
             s['a'], s['b'], s['usekw'] = None, None, False
         steps.append(s)
+    # the same object instance passed to several calls (a list / dict built once and handed to two inputs)
+    dirty_first = False
+    if draw(st.sampled_from([False, False, True])):
+        cands = [x for x in steps if isinstance(x.get('a'), (list, dict)) and ins[x['i']]['kind'] != 'property']
+        if cands:
+            x = draw(st.sampled_from(cands))
+            x['share'] = 'shared0'
+            y = copy.deepcopy(x)
+            y.pop('kwrev', None)
+            y['b'] = draw(st.sampled_from(['other', 7, None]))
+            y['name'] = 'n2' if x['name'] == 'n1' else 'n1'
+            steps.append(y)
+            dirty_first = draw(st.booleans())
     prog = PS.assign_sids(dict(klass='instance', ins=ins, outs=[], steps=steps, ending='return', result=None,
                                extractor='none'))
     seeds = draw(st.tuples(st.sampled_from(HS.SEEDS), st.sampled_from(HS.SEEDS)))
     return {'prog': prog, 'seeds': list(seeds), 'other': draw(st.sampled_from(['OTHER', 0, None, [1, 2]])),
-            'imports': list(draw(st.sampled_from([(False, False), (False, True), (True, False), (True, True)])))}
+            'imports': list(draw(st.sampled_from([(False, False), (False, True), (True, False), (True, True)]))),
+            'dirty_first': dirty_first}
 
 
 def known_witness(ctx):
